@@ -96,6 +96,21 @@ Theorem C09_row_eq_trans : forall a b c, row_eqb a b = true -> row_eqb b c = tru
 Proof. exact row_eqb_trans. Qed.
 Print Assumptions C09_row_eq_trans.
 
+(* Through the operators (model level): DISTINCT — and the key columns of the hashmap GROUP BY, which are the same
+   list — holds exactly one representative, taken from the input, of every class of rows that are Compare-equal
+   column by column; for batches of any size, rows of one arity. *)
+Theorem C09_distinct_classes : forall n rows, Forall (fun r => length r = n) rows ->
+  (forall r, In r rows -> exists o, In o (op_distinct rows) /\ row_eqb o r = true) /\
+  (forall o, In o (op_distinct rows) -> In o rows) /\
+  ForallOrdPairs (fun a b => row_eqb a b = false) (op_distinct rows).
+Proof. exact op_distinct_classes. Qed.
+Print Assumptions C09_distinct_classes.
+
+Theorem C09_group_by_keys : forall rows,
+  map (fun r => firstn (length r - 1) r) (op_simple_group_by rows) = op_distinct rows.
+Proof. exact op_sgb_keys. Qed.
+Print Assumptions C09_group_by_keys.
+
 (* Non-vacuity: two different NaN payloads nested in a tuple next to zeros of both signs and one instant in two
    locations compare equal and hash equally, while Equal on two NULLs is false although Compare is 0. *)
 Example C09_nontrivial :
